@@ -48,7 +48,7 @@ def guarded(f, *a, secs=30, **k):
 # ---- Coq term printers -------------------------------------------------------------------
 def cz(z):
     z = int(z)
-    return f"({z})" if z < 0 else str(z)
+    return f"({z})%Z" if z < 0 else f"{z}%Z"
 
 
 def cnat(n):
@@ -61,7 +61,7 @@ def clist(xs, f=cz):
 
 def cq(fr):
     fr = Fraction(fr)
-    return f"({fr.numerator} # {fr.denominator})"
+    return f"({fr.numerator} # {fr.denominator})%Q"
 
 
 def cbool(b):
